@@ -62,7 +62,7 @@ TOKENS = [
     ("fullwidth-slash", "／"),
     ("lone-surrogate", "\ud800"),
     (".yml", ".yml"),
-    ("ABS_OUTSIDE", "@root2/cfg1"),          # absolute path of an unrelated sibling config
+    ("ABS_OUTSIDE", "@other/cfg1"),          # absolute path of an unrelated sibling config
     ("ABS_ROOT", "@root"),                   # absolute path of the root itself
     ("ABS_PREFIX_SIBLING", "@rootx/cfg1"),   # absolute path of a sibling whose name extends "root"
     ("REL_PREFIX_SIBLING", "rootx/cfg1"),    # tail for `../rootx/cfg1`
@@ -105,7 +105,7 @@ class World:
         self.api = api
         self.RailsConfig = RailsConfig
         self.base = os.path.realpath(tempfile.mkdtemp(prefix="vf_c20_"))
-        for d in ("root/cfg1", "root/cfg2", "root2/cfg1", "rootx/cfg1"):
+        for d in ("root/cfg1", "root/cfg2", "other/cfg1", "rootx/cfg1"):
             p = os.path.join(self.base, d)
             os.makedirs(p)
             with open(os.path.join(p, "config.yml"), "w") as f:
@@ -246,15 +246,38 @@ def _inside(rp, root):
 
 def _outside_where(rp):
     b = _W.base
-    if _inside(rp, os.path.join(b, "rootx")):
-        return "prefix-sharing-sibling"
-    if _inside(rp, os.path.join(b, "root2")):
+    if rp.startswith(os.path.join(b, "root")) and not _inside(rp, os.path.join(b, "root")):
+        return "prefix-sharing-sibling"            # <root>x..., what a commonprefix test lets through
+    if _inside(rp, os.path.join(b, "other")):
         return "sibling"
     if _inside(rp, os.path.join(b, "root")):
         return "other-config-of-server-root"      # only possible in single-config mode
     if _inside(b, rp):
         return "ancestor"
     return "elsewhere"
+
+
+class _Req:
+    headers = {}
+
+
+def _endpoint_direct(ids):
+    """await api.chat_completion(...) with an unvalidated body object (no HTTP, no JSON)."""
+    api = _W.api
+    from nemoguardrails.rails.llm.options import GenerationOptions
+    body = api.RequestBody.model_construct(
+        config_id=None, config_ids=list(ids), thread_id=None, messages=copy.deepcopy(USER_MSG),
+        context=None, stream=False, options=GenerationOptions(), state=None)
+    try:
+        res = asyncio.run(api.chat_completion(body, _Req()))
+    except Exception as e:
+        return {"kind": "exc", "type": type(e).__name__, "where": _where(e), "msg": str(e)[:200]}
+    msgs = res.get("messages") if isinstance(res, dict) else None
+    if msgs and msgs[0].get("content") == FIXED.format(ids=list(ids)):
+        return {"kind": "rejected", "msg": "(endpoint) fixed reply"}
+    if msgs and FakeRails.calls and msgs == [fake_reply(FakeRails.calls[-1])]:
+        return {"kind": "served"}
+    return {"kind": "other-reply", "content": ascii(res)[:200]}
 
 
 def a_eval(mode, channel, form, ids):
@@ -270,7 +293,11 @@ def a_eval(mode, channel, form, ids):
         except ValueError as e:
             obs = {"kind": "rejected", "msg": str(e)[:120]}
         except Exception as e:
-            obs = {"kind": "exc", "type": type(e).__name__, "where": _where(e), "msg": str(e)[:200]}
+            # not a ValueError: would the endpoint let it escape (HTTP 500)?  Ask the real handler,
+            # bypassing HTTP/JSON/validation, so the verdict does not depend on where a fix is placed.
+            obs = _endpoint_direct(ids)
+            if obs["kind"] == "exc":
+                obs = {"kind": "exc", "type": type(e).__name__, "where": _where(e), "msg": str(e)[:200]}
     else:
         body = {"messages": USER_MSG}
         if form == "single":
@@ -351,6 +378,8 @@ def _branch(msg):
         return "guard_single_config_mode"
     if msg.startswith("Invalid config path"):
         return "from_path_not_a_config"
+    if msg.startswith("(endpoint)"):
+        return "endpoint_handler_non_valueerror"
     return "from_path_other_valueerror"
 
 
@@ -468,7 +497,7 @@ def run_a(rep, tier, deadline):
         collected.extend(res["viols"])
     # smallest counterexample first (workers finish in any order)
     collected.sort(key=lambda v: (sum(len(x) for x in v[2]["ids_tokens"]), len(v[2]["ids_tokens"]),
-                                  v[2]["channel"] != "http", json.dumps(v[2]["ids_tokens"]), v[2]["mode"], v[2]["form"]))
+                                  v[2]["channel"] != "http", json.dumps(v[2]["ids_tokens"]), v[2]["mode"], v[2]["form"] != "single"))
     for sig, what, rp in collected:
         _report(rep, sig, what, rp)
     # the requests that carry no id at all (one per mode and shape)
@@ -565,7 +594,7 @@ def b_judge(model, req, obs):
             kind = "unthreaded-request-sees-history"
         elif any(m in used for m in others if m not in used_e):
             kind = "foreign-thread-messages"
-        elif sorted(map(json.dumps, used)) == sorted(map(json.dumps, used_e)):
+        elif sorted(json.dumps(m, sort_keys=True) for m in used) == sorted(json.dumps(m, sort_keys=True) for m in used_e):
             kind = "wrong-order"
         elif used == new and stored:
             kind = "history-missing"
@@ -573,6 +602,7 @@ def b_judge(model, req, obs):
             kind = "other"
         out.append((f"thread:turn-input:{kind}",
                     f"{case}: messages used for the turn {_content(used)} != stored thread + new messages {_content(used_e)}"))
+        return out, model2      # one root cause: what gets stored after a wrong turn input is not judged again
     if obs["messages"] != [fake_reply(used)]:
         out.append(("thread:reply-not-returned", f"{case}: response {ascii(obs['messages'])[:200]} is not the reply generated for this turn"))
     exp_values = sorted(model2.values(), key=lambda x: json.dumps(x, sort_keys=True))
@@ -750,7 +780,7 @@ def run(rep, tier):
     _W = World()
     try:
         rep.assumptions += [
-            "POSIX file system; scratch tree root/{cfg1,cfg2}, siblings root2/cfg1 and rootx/cfg1 (name extends 'root'); "
+            "POSIX file system; scratch tree root/{cfg1,cfg2}, siblings other/cfg1 and rootx/cfg1 (name extends 'root', as 'root2' would); "
             "no symlinks inside the root (a link placed there by the operator is the operator's choice, not a request's)",
             "LLMRails inside api.py replaced by an echoing fake (no LLM / embedding model); RailsConfig.from_path is the real "
             "one, wrapped by a recorder; rails cache cleared before every part-A case so caching cannot hide a load",
